@@ -165,4 +165,20 @@ theorem C07_e2e_stack (env : GEnv) (cfg : GCfg) (mem : Nat → UInt8) (idx n cur
     · rw [List.getElem?_eq_none (by omega), List.getElem?_eq_none (by simp; omega)]
   rw [← this]; exact hb
 
+/-- **C07 (end to end, the window around the crash instruction pointer).** `E2E_window_in_image` under this property's
+    name: gathered thread list + crash context whose instruction pointer lies in a mapping ⇒ the memory list's blocks
+    hold a region of up to 128 bytes on either side of it, clipped to the mapping, with the target's bytes, located
+    right after the blamed thread's stack. -/
+theorem C07_e2e_window (env : GEnv) (cfg : GCfg) (mem : Nat → UInt8) (c : CrashIn) (blamed : Nat) (ts : List TInfo)
+    (d : DumpIn) (k : Nat) (t : TInfo) (hr : ReadsExactly env mem)
+    (hg : gatherThreads env cfg (some c) blamed d.numWriters ts = .ok d.threads)
+    (hk : ts[k]? = some t) (hb : t.tid = blamed)
+    (m : Mapping) (hm : env.ms.find? (fun m => !(decide (c.ip < m.start) || decide (c.ip ≥ m.start + m.size))) = some m) :
+    ∃ dt lo b, d.threads[k]? = some dt ∧ dt.window = some (lo, b) ∧
+      lo = max m.start (c.ip - 128) ∧ lo + b.length = min (m.start + m.size) (c.ip + 128) ∧
+      b = (List.range b.length).map (fun j => mem (lo + j)) ∧
+      (⟨lo, b.length, threadPos d k + dt.stackLen⟩ : Desc) ∈ (acc3 d).blocks ∧
+      At (dumpBytes d) (threadPos d k + dt.stackLen) b :=
+  E2E_window_in_image env cfg mem c blamed ts d k t hr hg hk hb m hm
+
 end Mdw
